@@ -149,6 +149,40 @@ prop('C14',
           'to_naive_time with all clock fields symbolic (second 60, missing seconds, nanosecond without second, exact error kinds); to_fixed_offset; every setter for every i64 '
           '(accepted exactly in range, stored exactly, second set accepted exactly when equal).')
 
+prop('C15',
+     title='Fallible operations fail by value, not by panic or hang',
+     verus=['timedelta', 'date', 'time', 'datetime', 'iters', 'round', 'week', 'tz'],
+     kani=['vk_date_from_ymd_opt', 'vk_date_from_yo_opt', 'vk_date_from_ordinal_and_flags', 'vk_date_isoywd_sound', 'vk_date_with_month', 'vk_date_with_day',
+           'vk_date_with_ordinal', 'vk_date_with_year', 'vk_date_add_months', 'vk_date_sub_months', 'vk_date_weekday_of_month', 'vk_date_succ_pred',
+           'vk_month_num_days', 'vk_month_from_u64', 'vk_month_from_i64', 'vk_weekday_from_primitive',
+           'vk_parsed_set_year', 'vk_parsed_set_timestamp', 'vk_parsed_set_clock', 'vk_parsed_time', 'vk_parsed_offset',
+           'vk_fixed_offset_ctor', 'vk_dt_from_local', 'vk_dt_wallclock_date_getters', 'vk_dt_wallclock_time_getters', 'vk_fmt_rfc3339_secs', 'vk_fmt_offset',
+           'vk_ndt_with_date_fields', 'vk_ndt_with_time_fields'],
+     kani_thorough=['vk_parsed_date_agrees', 'vk_dt_wallclock_week_getters', 'vk_ndt_months'],
+     bounded=['vk_weekday_from_str_bounded12', 'vk_month_from_str_bounded10', 'vk_tz_find_type_bounded', 'vk_tz_from_local_classify_bounded'],
+     twin=['strings', 'zoned', 'parsed', 'fmt', 'timedelta', 'date', 'time', 'datetime', 'round'],
+     kani_timeout=2400,
+     uncovered=['all string-taking entry points (parsers, StrftimeItems, Display/format): only the bounded native `strings` sweep; no contract within reach of either engine',
+                'serde deserialisers (feature not in the default build)', 'to_rfc3339 / to_rfc3339_opts / to_rfc2822 String wrappers (only their write_* callees)',
+                'Local / TimeZone-generic wrappers', 'termination is proved by Verus (decreases) but not by Kani'],
+     text='Absence of panic / overflow / out-of-bounds / failed expect / failed debug_assert is an obligation of every function under contract: this check aggregates '
+          'all Verus units (every arithmetic operation, index, expect and debug_assert inside the extracted real functions is a proof obligation under the type invariants only; loops carry decreases) '
+          'and the Kani harnesses that drive the public fallible entry points with unconstrained integer arguments, both range ends and the one-day sentinels. '
+          'String-taking entry points are covered only by a bounded native sweep (labelled so).')
+
+prop('C16',
+     title='The TZif and TZ-rule readers accept well-formed data and survive everything else',
+     verus=['tz'],
+     bounded=['vk_tz_validate_bounded', 'vk_tz_find_type_bounded', 'vk_tz_from_local_classify_bounded'],
+     twin=['tz'],
+     uncovered=['the TZif byte parser and the TZ-string grammar (iterator adapters, Vec, str::from_utf8): CBMC did not finish on 52-byte / 12-byte symbolic inputs in 20 min, so only the native sweep covers them',
+                'acceptance of every file a conforming writer emits (a statement over generated files, not a contract); only the 10 synthetic files + 15 rules of the twin',
+                'POSIX rule lookups (rule.rs) are not under contract', 'leap-second records'],
+     text='Proved (Verus, unbounded): on a zone that passed validate(), the wall-clock lookup never overflows or indexes out of bounds for any file-supplied 64-bit transition time, '
+          'and every candidate it returns is sound. Bounded Kani stand-ins: validate() accepts exactly well-formed tables; instant lookup. Bounded native stand-in (tz twin, through the public '
+          'TZ=:/file and TZ=rule route on fresh threads): files written by an independent TZif writer and POSIX rules yield exactly the modelled offsets, gaps and folds; ~700 structured '
+          'mutations (truncations, header-count and 64-bit-time extremes, random bytes, mutated TZ strings) never panic.')
+
 prop('C17',
      title='Rounding and truncation land on the right multiple',
      verus=['round'],
@@ -179,7 +213,6 @@ prop('C19',
 # properties not (or not yet) claimed: every id of properties.jsonl is either in PROPS or here
 NOT_APPLICABLE = {
 
-    'C15': 'not built yet', 'C16': 'not built yet',
     'C09': 'print->parse round trip lives in core::fmt and &str scanning with iterator adapters: no function contract within reach of Verus (no str bytes) and only bounded exploration in Kani, which is another technique',
     'C11': 'RFC 2822 reader/writer is a hand-written scanner over arbitrary strings (comments, name tables, String building): only bounded string exploration is possible',
     'C13': 'format/parse inverse over a family of format strings: same reason as C09',
